@@ -14,3 +14,15 @@ GROUPS += [
     _oq('C12.O2.objectqueue_put', 'h_put', 'H_PUT', 'arbitrary queue of <= 3 objects, any capacity incl. 1 and unlimited', canaries=2),
     _oq('C12.O3.objectqueue_queries', 'h_misc', 'H_MISC', 'arbitrary queue of <= 3 objects'),
 ]
+
+def _pq(gid, entry, define, bound, canaries=1):
+    return Group(id=gid, prop='C12', harness='prioq.c', entry=entry, defines=[define], level='bounded-unwind', bound=bound, backend='sat', timeout=900, tier='quick',
+                 unwind=7, canaries=canaries, functions=['cmb_priorityqueue_get', 'cmb_priorityqueue_put', 'cmb_priorityqueue_position', 'cmb_priorityqueue_cancel', 'cmb_priorityqueue_reprioritize',
+                                                          'cmb_priorityqueue_length/_space', 'compare_func', 'record_sample', 'has_content', 'has_space'],
+                 stubs=['cmi_hashheap.c: contract stub hhstub.h (C02)', 'guard / time series / clock: contract stubs (cmv_guardstub.h)'], also=['C08', 'C14', 'C10'],
+                 assumes=['<= 3 queued objects in any observed state, <= 2 waits per call followed', '2^64 handles never issued'])
+GROUPS += [
+    _pq('C12.O4.priorityqueue_get', 'h_get', 'H_GET', 'arbitrary queue of <= 3 (object, priority, handle) entries, any capacity; environment replaces the queue at every wait', canaries=2),
+    _pq('C12.O4.priorityqueue_put', 'h_put', 'H_PUT', 'arbitrary queue of <= 3 entries, any capacity', canaries=2),
+    _pq('C12.O5.priorityqueue_position_cancel_reprioritize', 'h_misc', 'H_MISC', 'arbitrary queue of <= 3 entries; any handle'),
+]
